@@ -2,6 +2,8 @@ import Aqv.Base.Proto
 import Aqv.Base.Keccak
 import Aqv.Model.Trie
 import Aqv.Model.TrieProof
+import Aqv.Model.TrieLoad
+import Std.Data.HashMap
 open Aqv Aqv.Proto Aqv.Trie Aqv.Rlp
 
 /-! Model driver for C10. One case line = one whole history (or one codec / decode / verify probe).
@@ -64,14 +66,87 @@ def implIter (t : Node) : String :=
     | none => ([0xEE, 0xEE], kv.2)
   renderIter kvs
 
+/-! The history replay runs in the PARTIAL-LOAD model (Model.TrieLoad): state = node database + partially loaded root.
+  `c` stores the loaded nodes (`commitDb`) and then unloads every stored node below depth `limit` (the model's own
+  choice among the unloadings `Unload` permits — Go's choice depends on cache generations; every choice must be
+  invisible), `r` commits and restarts from the bare root hash node, `u`/`d`/`g` resolve hash nodes on demand through
+  the database. Iteration and proofs first reload the whole trie (`loadP`). -/
+
+/-- unload every clean node at depth ≥ d (root forced, others only when their RLP is ≥ 32 bytes). -/
+def unloadD : Nat → Bool → PNode → PNode
+  | 0, r, .short k c =>
+    let e := enc (bodyX H (.short k c)); if r || decide (32 ≤ e.length) then .hash (H e) else .short k c
+  | 0, r, .full cs =>
+    let e := enc (bodyX H (.full cs)); if r || decide (32 ≤ e.length) then .hash (H e) else .full cs
+  | d + 1, _, .short k c => .short k (unloadD d false c)
+  | d + 1, _, .full cs =>
+    let arr := ((List.finRange 17).map fun i => unloadD d false (cs i)).toArray
+    .full fun i => arr.getD i.val .nil
+  | _, _, x => x
+
+/-- node database of the replay: a hash map with `db.insert` semantics (first blob stored under a hash is kept); the
+    model functions see it as the function `fun h => map[h]?`. Equivalent to folding `dbInsert` (Model.TrieLoad). -/
+abbrev DbMap := Std.HashMap Bytes Bytes
+
+def dbFun (m : DbMap) : Bytes → Option Bytes := fun h => m[h]?
+
+/-- one bottom-up pass computing what `storeList` lists (each node hashed once): (reference item, entries). -/
+def storePass : PNode → Item × List (Bytes × Bytes)
+  | .nil => (.str [], [])
+  | .value v => (.str v, [])
+  | .hash h => (.str h, [])
+  | .short k c =>
+    let (rc, es) := storePass c
+    let it : Item := .list [.str (hexToCompact k), rc]
+    let e := enc it
+    if 32 ≤ e.length then (.str (H e), (H e, e) :: es) else (it, es)
+  | .full cs =>
+    let parts := (List.finRange 17).map fun i => storePass (cs i)
+    let it : Item := .list (parts.map (·.1))
+    let es := parts.flatMap (·.2)
+    let e := enc it
+    if 32 ≤ e.length then (.str (H e), (H e, e) :: es) else (it, es)
+
+/-- `commitDb` on the hash map: root entry (forced) + every loaded node of ≥ 32 bytes. -/
+def commitMap (m : DbMap) (x : PNode) : DbMap :=
+  match x with
+  | .nil => m
+  | .value _ => m
+  | .hash _ => m
+  | x =>
+    let e := enc (bodyX H x)
+    ((storePass x).2).foldl (fun m kv => m.insertIfNew kv.1 kv.2) (m.insertIfNew (H e) e)
+
+/-- `loadP` with the children of every branch materialised (the model's `loadP` returns lazily evaluated closures). -/
+def loadFast (db : Bytes → Option Bytes) : Nat → PNode → Option Node
+  | 0, _ => none
+  | _ + 1, .nil => some .nil
+  | _ + 1, .value v => some (.value v)
+  | f + 1, .hash h =>
+    match db h with
+    | none => none
+    | some blob =>
+      match decodeNode (blob.length + 1) blob with
+      | .ok pn => loadFast db f pn
+      | .error _ => none
+  | f + 1, .short k c => (loadFast db f c).map (Node.short k)
+  | f + 1, .full cs =>
+    let arr := ((List.finRange 17).map fun i => loadFast db f (cs i)).toArray
+    if arr.all (·.isSome) then some (.full fun i => (arr.getD i.val none).getD .nil) else none
+
 structure St where
-  t : Node := .nil
+  dbm : DbMap := {}
+  x : PNode := .nil
+  limit : Nat := 0
   m : RMap := []
   impl : List String := []          -- model outputs (reverse order)
   goLeft : List String := []        -- Go outputs still to be judged
   specOk : Bool := true
   why : String := ""
   panicked : Bool := false
+  bad : String := ""
+
+def St.db (s : St) : Bytes → Option Bytes := dbFun s.dbm
 
 def St.emit (s : St) (implOut : String) (specAccepts : String → Bool) (why : String) : St :=
   match s.goLeft with
@@ -83,35 +158,70 @@ def St.emit (s : St) (implOut : String) (specAccepts : String → Bool) (why : S
 
 def applyKey (secure : Bool) (k : Bytes) : Bytes := if secure then H k else k
 
+def St.fail (s : St) (what : String) : St := { s with panicked := true, bad := what }
+
+def xresTag {α : Type} : XRes α → String
+  | .ok _ => "ok"
+  | .missing _ => "missing-node"
+  | .panic => "panic"
+  | .fuel => "fuel"
+
+/-- the fully reloaded trie (for iteration / Prove). -/
+def St.loaded (s : St) : Option Node := loadFast s.db 200 s.x
+
 def stepOp (secure : Bool) (s : St) (op : String) : St :=
   if s.panicked then s else
   match op.splitOn ":" with
   | ["u", k, v] =>
     let kb := applyKey secure (hexB k); let vb := hexB v
-    match tryUpdate s.t kb vb with
-    | some t' => { s with t := t', m := rmUpdate s.m kb vb }
-    | none => { s with panicked := true }
+    let key := keybytesToHex kb
+    let r := if vb.length != 0 then xinsert s.db (xfuel key) s.x key vb else xdelete s.db (xfuel key) s.x key
+    match r with
+    | .ok (_, n) => { s with x := n, m := rmUpdate s.m kb vb }
+    | e => s.fail ("update:" ++ xresTag e)
   | ["d", k] =>
     let kb := applyKey secure (hexB k)
-    match tryDelete s.t kb with
-    | some t' => { s with t := t', m := rmErase s.m kb }
-    | none => { s with panicked := true }
+    let key := keybytesToHex kb
+    match xdelete s.db (xfuel key) s.x key with
+    | .ok (_, n) => { s with x := n, m := rmErase s.m kb }
+    | e => s.fail ("delete:" ++ xresTag e)
   | ["g", k] =>
     let kb := applyKey secure (hexB k)
-    match tryGet s.t kb with
-    | some r => s.emit (renderOpt r) (fun g => g == renderOpt (rmGet s.m kb)) "get-differs-from-content"
-    | none => { s with panicked := true }
-  | ["h"] | ["c"] | ["r"] =>
-    s.emit (hexOfBytes (hashRoot H s.t)) (fun g => g == hexOfBytes (specRoot s.m)) "root-differs-from-mptRoot-of-content"
-  | ["l", _] => s
-  | ["i"] => s.emit (implIter s.t) (fun g => g == renderIter s.m) "iteration-differs-from-content"
+    let key := keybytesToHex kb
+    match xget s.db (xfuel key) s.x key with
+    | .ok (r, n) =>
+      ({ s with x := n }).emit (renderOpt r) (fun g => g == renderOpt (rmGet s.m kb)) "get-differs-from-content"
+    | e => s.fail ("get:" ++ xresTag e)
+  | ["h"] =>
+    s.emit (hexOfBytes (hashRootX H s.x)) (fun g => g == hexOfBytes (specRoot s.m)) "root-differs-from-mptRoot-of-content"
+  | ["c"] =>
+    let root := hashRootX H s.x
+    -- cross-check of the driver's one-pass commit against the model's `storeList` (first commit of a history)
+    if s.dbm.isEmpty && (storePass s.x).2 != storeList H s.x then s.fail "commit:storePass-differs-from-storeList" else
+    let s' := { s with dbm := commitMap s.dbm s.x, x := unloadD s.limit true s.x }
+    s'.emit (hexOfBytes root) (fun g => g == hexOfBytes (specRoot s.m)) "root-differs-from-mptRoot-of-content"
+  | ["r"] =>
+    let root := hashRootX H s.x
+    let x' : PNode := match s.x with
+      | .nil => .nil
+      | _ => .hash root
+    let s' := { s with dbm := commitMap s.dbm s.x, x := x' }
+    s'.emit (hexOfBytes root) (fun g => g == hexOfBytes (specRoot s.m)) "root-differs-from-mptRoot-of-content"
+  | ["l", n] => { s with limit := n.toNat! }
+  | ["i"] =>
+    match s.loaded with
+    | some t => s.emit (implIter t) (fun g => g == renderIter s.m) "iteration-differs-from-content"
+    | none => s.fail "iterate:reload-failed"
   | ["p", k] =>
     let kb := applyKey secure (hexB k)
     let key := keybytesToHex kb
-    match prove H s.t key with
-    | none => { s with panicked := true }
+    match s.loaded with
+    | none => s.fail "prove:reload-failed"
+    | some t =>
+    match prove H t key with
+    | none => s.fail "prove:panic"
     | some els =>
-      let r := verifyProof H (dbOf H els) (verifyFuel key + els.length) (hashRoot H s.t) key
+      let r := verifyProof H (dbOf H els) (verifyFuel key + els.length) (hashRootX H s.x) key
       let want : VRes := match rmGet s.m kb with | some v => .value v | none => .absent
       -- Spec: whatever node list Go produced must verify, against the spec root, to the content
       let accepts := fun (g : String) =>
@@ -125,11 +235,14 @@ def stepOp (secure : Bool) (s : St) (op : String) : St :=
   | ["x", k, k2] =>
     -- proof produced for k, verified for k2 against the same root: must yield k2's value, its absence, or an error
     let kb := applyKey secure (hexB k); let kb2 := applyKey secure (hexB k2)
-    match prove H s.t (keybytesToHex kb) with
-    | none => { s with panicked := true }
+    match s.loaded with
+    | none => s.fail "prove:reload-failed"
+    | some t =>
+    match prove H t (keybytesToHex kb) with
+    | none => s.fail "prove:panic"
     | some els =>
       let key2 := keybytesToHex kb2
-      let r := verifyProof H (dbOf H els) (verifyFuel key2 + els.length) (hashRoot H s.t) key2
+      let r := verifyProof H (dbOf H els) (verifyFuel key2 + els.length) (hashRootX H s.x) key2
       let want := match rmGet s.m kb2 with | some v => "v" ++ hexOrDash v | none => "absent"
       s.emit (renderVRes r) (fun g => g == "err" || g == want) "foreign-proof-verifies-to-wrong-value"
   | _ => s
@@ -164,11 +277,11 @@ def handle (l : String) : String :=
     let goOuts := if go == "" then [] else go.splitOn "|"
     let s0 : St := { goLeft := goOuts }
     let s := (ops.splitOn "|").foldl (stepOp secure) s0
-    if s.panicked then verdict "model-panic" go false "model-panicked-on-api-history"
+    if s.panicked then verdict ("model-failure:" ++ s.bad) go false "model-failed-on-api-history"
     else
       let implOut := "|".intercalate s.impl.reverse
       -- internal consistency of the run-time model against the run-time spec (a theorem; checked anyway)
-      let consistent := hexOfBytes (hashRoot H s.t) == hexOfBytes (specRoot s.m)
+      let consistent := hexOfBytes (hashRootX H s.x) == hexOfBytes (specRoot s.m)
       if !consistent then implOut ++ "\tspec-reject:model-root-differs-from-spec-root"
       else verdict implOut go (s.specOk && s.goLeft.isEmpty) s.why
   | ["D", items] =>
